@@ -1,3 +1,5 @@
 import Dino.Util
 import Dino.Sigma
 import Dino.SigmaDrv
+import Dino.Implicit
+import Dino.ImplicitDrv
